@@ -25,11 +25,11 @@ ASSUMPTIONS = ['BTreeMap iteration visits every entry', 'find(1) -printf semanti
 
 def run(ctx):
     F = ctx.F['cli']
-    plan_rules(ctx, F, 'C19.R1')
-    needs_transfer_rule(ctx, F, 'C19.R2')
-    excluded_rules(ctx, F, 'C19.R3')
-    glob_rules(ctx, F, 'C19.R3')
-    listing_rule(ctx, F, 'C19.R4')
+    ctx.attempt(plan_rules, ctx, F, 'C19.R1')
+    ctx.attempt(needs_transfer_rule, ctx, F, 'C19.R2')
+    ctx.attempt(excluded_rules, ctx, F, 'C19.R3')
+    ctx.attempt(glob_rules, ctx, F, 'C19.R3')
+    ctx.attempt(listing_rule, ctx, F, 'C19.R4')
 
 
 # ---------------------------------------------------------------- build_plan
